@@ -9,7 +9,7 @@ func init() {
 			"delegating records the lock↔intermediary connection and a bonded synthetic lock before staking, undelegating removes both before unstaking; every flow validates lock ownership (and single-coin locks) first; a lock can be force-unlocked through superfluid only when its synthetic lock is already unlocking; the refresh adjusts stake by the difference in the direction of the comparison.",
 		NotCovered:  []string{"stake = risk-adjusted value to within one unit per lock", "supply neutrality as a number", "drift over epochs"},
 		Assumptions: []string{"staking keeper Delegate / InstantUndelegate semantics", "cache-context helper (C17)"},
-		MinObl:      92,
+		MinObl:      93,
 		Run:         runC11,
 	})
 }
@@ -42,6 +42,8 @@ func runC11(c *rules.Ctx) {
 	c.Returns(K+"UnriskAdjustOsmoValue", 0, "sdkmath.LegacyDec.Quo(amount, sdkmath.LegacyDec.Sub(sdkmath.LegacyOneDec(), {RISK}))", "the inverse divides by 1 − minimum risk factor", "")
 	lockupGenesisAccumulationRules(c)
 	c.CheckedCall("x/superfluid/keeper.Hooks.AfterEpochEnd", "superfluidkeeper.Keeper.AfterEpochEnd", []string{"h.k", "ctx", "epochIdentifier", "epochNumber"}, "the epoch hook wrapper fails when the keeper's epoch step fails", "")
+	// ---- the total-delegations query converts shares to tokens with the validator's exchange rate (tokens per share)
+	c.Returns("x/superfluid/keeper.Querier.TotalSuperfluidDelegations", 0, "has(sdkmath.LegacyDec.RoundInt(sdkmath.LegacyDec.MulInt(sdkmath.LegacyDec.Quo(_.Shares, _.DelegatorShares), _.Tokens))) | nil", "reported stake of an intermediary account = shares / delegator shares × tokens", "")
 	// ---- delegate flow
 	const SD = K + "SuperfluidDelegate"
 	c.Let("LOCK", "superfluidtypes.LockupKeeper.GetLockByID(k.lk,ctx,lockID)#0")
